@@ -69,6 +69,15 @@ func genC18(t *rapid.T) c18Case {
 	n := rapid.IntRange(1, 6).Draw(t, "nreqs")
 	str := func(l string) string { return rapid.SampledFrom(c18Strings).Draw(t, l) }
 	id := func(l string) string { return rapid.SampledFrom(c18Ids).Draw(t, l) }
+	if rapid.IntRange(0, 7).Draw(t, "inheritance?") == 0 {
+		// start with a parent that holds a fact, so that inherited
+		// searches (and takes) find something that is not the location's own
+		js, _ := json.Marshal([]string{"loc two"})
+		c.Reqs = append(c.Reqs,
+			c18Req{"addFact", M{"location": "loc two", "id": "pf", "fact": M{"k": str("pf.v"), "n": 1.0}}},
+			c18Req{"setParents", M{"location": "here", "set": string(js)}},
+			c18Req{rapid.SampledFrom([]string{"take", "search", "replace"}).Draw(t, "inh.op"), M{"location": "here", "pattern": M{"k": "?v"}, "inherited": true, "fact": M{"k": "y", "n": 7.0}}})
+	}
 	for i := 0; i < n; i++ {
 		l := fmt.Sprintf("r%d", i)
 		op := rapid.SampledFrom([]string{"addFact", "addFact", "addFact", "getFact", "remFact", "search", "search", "take", "replace", "query", "addRule", "addRule",
@@ -301,7 +310,12 @@ func c18Direct(s *sys.System, r c18Req, gens map[string]bool) c18Result {
 			}
 			rows = append(rows, id+"="+normBindings(bs))
 			if r.Op != "search" {
-				s.RemFact(ctx, loc, sr.Id)
+				// a take that cannot remove what it reports as taken
+				// (e.g. a parent's fact found through inheritance)
+				// is a failing operation
+				if _, err := s.RemFact(ctx, loc, sr.Id); err != nil {
+					return fail
+				}
 			}
 		}
 		sort.Strings(rows)
